@@ -227,6 +227,16 @@ def judge(box, msgs, res, rep, case):
                 # was waiting when the exchange ahead failed
                 rep.monitor("held_back_failed_with_head")
                 held_back += 1
+                if s["spec"]["reaction"] == "unserialisable":
+                    # may be refused as early as it is handed in; at the latest it goes down with the rest
+                    d = done_by_i.get(i)
+                    if o is not None:
+                        rep.violation("unserialisable-transmitted", "a message that cannot be serialised appeared on the wire", wit(submission=s["seq"]), case)
+                    elif d is None:
+                        rep.violation("held-back-forgotten/unserialisable", "a held-back message that could not be serialised was dropped without its request being failed", wit(submission=s["seq"], fail_at=fail_at), case)
+                    elif d[1] is None or d[0] < ts - 1e-9 or d[0] > fail_at + 1e-6:
+                        rep.violation("unserialisable-wrong-failure", "the request of a message that cannot be serialised did not fail between its submission and the failure of the exchange ahead", wit(submission=s["seq"], done=repr(d), fail_at=fail_at), case)
+                    continue
                 if o is not None:
                     rep.violation("held-back-transmitted-after-head-failed", "a held-back message was transmitted although the exchange ahead of it had failed (its request is to be failed instead)", wit(submission=s["seq"], observed=o, fail_at=fail_at), case)
                 d = done_by_i.get(i)
@@ -240,8 +250,8 @@ def judge(box, msgs, res, rep, case):
             if predicted > ts + 1e-12:
                 held_back += 1
             if s["spec"]["reaction"] == "unserialisable":
-                # never reaches the wire: in the instant its turn comes its request fails (with whatever the
-                # serialiser raised), and the endpoint is as free as before
+                # never reaches the wire: its request fails (with whatever the serialiser raised) when it is handed in
+                # or at the latest in the instant its turn comes, and the endpoint is as free as before
                 rep.monitor("unserialisable_in_queue", 1 if predicted > ts + 1e-12 else 0)
                 rep.monitor("unserialisable")
                 d = done_by_i.get(i)
@@ -249,8 +259,9 @@ def judge(box, msgs, res, rep, case):
                     rep.violation("unserialisable-transmitted", "a message that cannot be serialised appeared on the wire", wit(submission=s["seq"]), case)
                 elif d is None:
                     rep.violation("held-back-forgotten/unserialisable", "a held-back message that could not be serialised when its turn came was dropped without its request being failed", wit(submission=s["seq"], predicted=predicted), case)
-                elif d[1] is None or abs(d[0] - predicted) > 1e-6:
-                    rep.violation("unserialisable-wrong-failure", "the request of a message that cannot be serialised did not fail in the instant its turn came", wit(submission=s["seq"], done=repr(d), predicted=predicted), case)
+                elif d[1] is None or d[0] < ts - 1e-9 or d[0] > predicted + 1e-6:
+                    # (refused when it is handed in, or at the latest in the instant its turn comes)
+                    rep.violation("unserialisable-wrong-failure", "the request of a message that cannot be serialised did not fail between its submission and the instant its turn came", wit(submission=s["seq"], done=repr(d), predicted=predicted), case)
                 continue
             rep.monitor("first_tx_time")
             if s["spec"]["reaction"] == "refused-first" and predicted > ts + 1e-12:
